@@ -33,6 +33,10 @@ pub struct Case {
     /// are listed in reverse order (so its numeric pad id differs from the input side's)
     #[serde(default)]
     pub target_reversed: bool,
+    /// the first item's text gets one more character: "e" followed by this many combining acute
+    /// accents - a single grapheme cluster of 2n + 1 bytes (0 = nothing added)
+    #[serde(default)]
+    pub big_cluster: usize,
 }
 
 pub struct C17;
@@ -48,7 +52,7 @@ impl Prop for C17 {
         crate::fuzzdec::c17(bytes)
     }
     const RULE: &'static str = "batches of 1-6 Unicode texts (fragment pools incl. special-token spellings, multi-code-point clusters, empty strings) x byte tokenizer configs (byte/code-point groups, graphemes, pad_to_multiple_of, mean/sum) x special configs with prefix/suffix x ignore_special_tokens x train task (whitespace correction, generation with/without input masking and separator, conditional generation with the same or a differently configured target tokenizer (special tokens in reverse order, hence another pad id), classification). Oracle: exact expected group structure per tokenization and sum of group lengths = #ids; sparse COO matrix: one entry per token, indices inside the declared size, each (batch, token) once, token->group assignment equals the grouping, per-group weights sum to 1 (mean) / are all 1 (sum), padding mask; tensorised id/label matrices = item values followed only by padding, true lengths, width = max length. Non-trivial: batch of >= 2 items of different lengths with a prefix or suffix and a multi-code-point cluster. Distinct = distinct serialised case.";
-    const ESSENTIAL: &'static [&'static str] = &["bytes_groups", "code_point_groups", "mean", "sum", "special_in_text", "prefix_suffix", "multi_cp_cluster", "empty_text", "task_ws", "task_gen", "task_cond", "task_cls", "different_lengths", "target_tokenizer_differs"];
+    const ESSENTIAL: &'static [&'static str] = &["bytes_groups", "code_point_groups", "mean", "sum", "special_in_text", "prefix_suffix", "multi_cp_cluster", "empty_text", "task_ws", "task_gen", "task_cond", "task_cls", "different_lengths", "target_tokenizer_differs", "cluster_of_65536_bytes_or_more"];
 
     fn budget(tier: Tier) -> Budget {
         match tier {
@@ -80,7 +84,16 @@ impl Prop for C17 {
                         mask_input,
                         separator,
                         target_reversed,
+                        big_cluster: 0,
                     })
+            })
+            .prop_flat_map(|c| {
+                // one case in 1500: a grapheme cluster of about 2^16 bytes / 2^15 code points (and
+                // one around 2^16 code points) in the first item
+                prop_oneof![
+                    1500 => Just(c.clone()),
+                    1 => select(vec![32767usize, 32768, 32769, 65535, 65536, 65537, 127, 128]).prop_map(move |n| Case { big_cluster: n, ..c.clone() }),
+                ]
             })
             .boxed()
     }
@@ -95,6 +108,19 @@ impl Prop for C17 {
 
     fn check(c: &Case, _strict: bool) -> Outcome {
         let mut out = Outcome::new();
+        let big;
+        let c = if c.big_cluster > 0 {
+            let mut items = c.items.clone();
+            if items.is_empty() {
+                items.push((String::new(), 0));
+            }
+            items[0].0 = format!("{}e{}", items[0].0, "\u{301}".repeat(c.big_cluster));
+            out.label_if(2 * c.big_cluster + 1 >= 65536, "cluster_of_65536_bytes_or_more");
+            big = Case { items, big_cluster: 0, ..c.clone() };
+            &big
+        } else {
+            c
+        };
         let Kind::Byte { graphemes, code_point_groups, sum, .. } = &c.kind else {
             out.fail("harness: not a byte kind");
             return out;
